@@ -2171,6 +2171,9 @@ func (p *prover) importCallerFacts(s *factSet, fn *ssa.Function, seen map[term]b
 			}
 		}
 	}
+	// the terms the links have just brought in (the length of an argument that is a slice of an immutable field of the
+	// caller's receiver) get the caller's object facts too: they were not in sight when the caller's own facts were collected
+	p.fieldLoadFacts(s, caller, seen)
 }
 
 func (p *prover) preconds(fn *ssa.Function) []fact {
